@@ -51,7 +51,7 @@ theorem prctl_words : PR_SET_NO_NEW_PRIVS = 38 ∧ SECCOMP_SET_MODE_FILTER = 1 :
 
 /-- **An unprivileged process can always load a valid filter when it asks for no_new_privs**, under
     every schedule: a kernel that has the seccomp syscall, a valid program (accepted by the verifier,
-    1..4096 instructions), known flag bits, and
+    1..4096 instructions), known flag bits (thread-sync and a listener are not asked for together), and
     — if thread-sync is requested — no other thread with a chain that is not an ancestor of the
     caller's. -/
 theorem unprivileged_can_load (U : Unsupported) (filter : Filter) (p : Prog)
@@ -59,6 +59,7 @@ theorem unprivileged_can_load (U : Unsupported) (filter : Filter) (p : Prog)
     (havail : w.seccompAvailable = true) (ha : w.nnpAvailable = true)
     (hok : p.ok = true ∧ p.len % 65536 ≠ 0 ∧ p.len % 65536 ≤ BPF_MAXINSNS)
     (hflags : filter.flag &&& knownFlags = filter.flag)
+    (hcombo : ¬ (filter.flag &&& FLAG_TSYNC ≠ 0 ∧ filter.flag &&& FLAG_NEW_LISTENER ≠ 0))
     (hsync : filter.flag &&& FLAG_TSYNC ≠ 0 → ∀ t ∈ w.live, t ≠ w.cur →
       (w.thr t).filters.isSuffixOf (w.thr w.cur).filters = true) :
     (Gen.loadFilter U filter w).1 = GoErr.nil := by
@@ -69,7 +70,7 @@ theorem unprivileged_can_load (U : Unsupported) (filter : Filter) (p : Prog)
     rw [preInstall_sched_nnp filter w hn, preInstall_cur]
   have : (Gen.seccomp U 1 filter.flag (mkFprog (.prog p)) (preInstall filter w)).1 = GoErr.nil := by
     simp only [mkFprog]
-    apply gen_seccomp_ok (by rw [preInstall_avail]; exact havail) hflags (by simpa using hok)
+    apply gen_seccomp_ok (by rw [preInstall_avail]; exact havail) hflags hcombo (by simpa using hok)
     · left
       rw [hcur, schedStep_thr, preInstall_nnp filter w hn ha]
       simp
@@ -78,6 +79,19 @@ theorem unprivileged_can_load (U : Unsupported) (filter : Filter) (p : Prog)
       rw [preInstall_filters, preInstall_filters]
       exact hsync hts t (by rw [preInstall_live] at ht; exact ht) htc
   rw [if_neg (by rw [this]; exact fun h => h rfl)]
+
+/-- … in particular with a listener: `SECCOMP_FILTER_FLAG_NEW_LISTENER`, alone or with LOG, makes the
+    kernel return a positive descriptor, which is not a refusal -/
+theorem unprivileged_can_load_with_listener (U : Unsupported) (filter : Filter) (p : Prog)
+    (hp : filter.policy = .prog p) (hn : filter.noNewPrivs = true) (w : World)
+    (havail : w.seccompAvailable = true) (ha : w.nnpAvailable = true)
+    (hok : p.ok = true ∧ p.len % 65536 ≠ 0 ∧ p.len % 65536 ≤ BPF_MAXINSNS)
+    (hfl : filter.flag = FLAG_NEW_LISTENER ∨ filter.flag = FLAG_NEW_LISTENER ||| FLAG_LOG) :
+    (Gen.loadFilter U filter w).1 = GoErr.nil := by
+  apply unprivileged_can_load U filter p hp hn w havail ha hok
+  · rcases hfl with h | h <;> rw [h] <;> decide
+  · rcases hfl with h | h <;> rw [h] <;> decide
+  · rcases hfl with h | h <;> rw [h] <;> intro hts <;> exact absurd rfl hts
 
 /-- **Not requested ⇒ the loader issues no `prctl`**: the only kernel call it can make is the seccomp
     call (none at all if the policy does not assemble). -/
